@@ -108,8 +108,11 @@ def _reader_checks(ctx, R, q, kind):
                 # a sorted read is fine only with the inverse permutation applied (scatter form)
                 ctx.violate(R, c, "%s: reads exactly the requested index array, in the given order" % q,
                             "rows are read at `%s`, not at the index array that was requested: the caller's order is not provably restored" % (A.unparse(a0)[:60] if a0 is not None else None), key=q + ":idx")
+    # the array that is filled and returned
+    rets = [s for s in A.walk_local(fn) if isinstance(s, ast.Return)]
+    B = canon(rets[0].value) if len(rets) == 1 and isinstance(rets[0].value, ast.Name) else "batch"
     # the store batch[:, i] = <read result>
-    stores = [s for s in A.walk_local(l) if isinstance(s, ast.Assign) and isinstance(s.targets[0], ast.Subscript) and canon(s.targets[0].value) == "batch"]
+    stores = [s for s in A.walk_local(l) if isinstance(s, ast.Assign) and isinstance(s.targets[0], ast.Subscript) and canon(s.targets[0].value) == B]
     okst = False
     why = "no `batch[:, i] = <column>` store in the loop"
     for s in stores:
@@ -124,7 +127,8 @@ def _reader_checks(ctx, R, q, kind):
             why = "store target `%s` is not column i of the batch" % A.unparse(s.targets[0])
     ctx.check(R, l, "%s: column i of the batch = the i-th requested column, all rows in read order" % q, okst, why, key=q + ":store")
     # unit conversion
-    convs = [s for s in A.walk_local(fn) if isinstance(s, ast.AugAssign) and isinstance(s.target, ast.Subscript) and canon(s.target.value) == "batch"]
+    convs = [s for s in A.walk_local(fn) if isinstance(s, ast.AugAssign) and isinstance(s.target, ast.Subscript) and canon(s.target.value) == B]
+    tables = []
     ctx.check(R, fn, "%s converts units" % q, len(convs) == 1, "found %d conversion statements" % len(convs), key=q + ":conv-count")
     for s in convs:
         cl = A.enclosing(s, (ast.For,))
@@ -137,24 +141,30 @@ def _reader_checks(ctx, R, q, kind):
         tgt_ok = isinstance(sl, ast.Tuple) and len(sl.elts) == 2 and isinstance(sl.elts[0], ast.Slice) and canon(sl.elts[1]) == ci and isinstance(s.op, ast.Mult)
         ctx.check(R, s, "%s: conversion scales column i" % q, tgt_ok, "target `%s` op %s" % (A.unparse(s.target), type(s.op).__name__), key=q + ":conv-target")
         f = s.value
-        want = canon(parse("table_units[%s].to(units[%s])" % (cn, cn)))
-        ok_dir = canon(f) == want
-        inv = canon(f) == canon(parse("units[%s].to(table_units[%s])" % (cn, cn)))
+        # T[name].to(units[name]) with T the parsed file header (whatever it is called)
+        T = None
+        if isinstance(f, ast.Call) and A.last_attr(f) == "to" and len(f.args) == 1 and isinstance(f.func.value, ast.Subscript) and canon(f.func.value.slice) == cn:
+            T = f.func.value.value
+        ok_dir = T is not None and canon(f.args[0]) == canon(parse("units[%s]" % cn)) and canon(T) != "units"
+        if ok_dir:
+            tables.append((T, s))
+        inv = isinstance(f, ast.Call) and A.last_attr(f) == "to" and canon(f.func.value) == canon(parse("units[%s]" % cn))
         ctx.check(R, s, "%s: factor = table_units[name].to(units[name]) (file -> requested)" % q, ok_dir,
                   "conversion factor is `%s`%s" % (A.unparse(f), " (inverted direction)" if inv else ""), key=q + ":conv-dir")
         g = [(canon(t), pol) for t, pol in A.guards_of(s)]
         ok_g = (canon(parse("%s in units" % cn)), True) in g and (canon(parse("units is not None")), True) in g and len(g) == 2
         ctx.check(R, s, "%s: every requested column with a requested unit is converted" % q, ok_g, "conversion guarded by %s" % g, key=q + ":conv-guard")
     # table_units come from this file's header
-    tu = [s for s in A.walk_local(fn) if isinstance(s, ast.Assign) and canon(s.targets[0]) == "table_units"]
-    ok_tu = len(tu) == 1
-    if ok_tu:
-        v = flow.resolve(tu[0].value, at=tu[0])
-        ok_tu = isinstance(v, ast.Call) and A.call_name(v) == "table_header_to_units" and "prior_samples_file" in A.unparse(v) and "meta_path" in A.unparse(v)
-    ctx.check(R, fn, "%s: file units are parsed from this file's header on this call" % q, ok_tu, "table_units is not table_header_to_units(<this file>[meta_path(path)])", key=q + ":table-units")
+    ok_tu = bool(tables)
+    seen = None
+    for T, st in tables:
+        v = flow.resolve(T, at=st)
+        seen = v
+        ok_tu = ok_tu and isinstance(v, ast.Call) and A.call_name(v) == "table_header_to_units" and "prior_samples_file" in A.unparse(v) and "meta_path" in A.unparse(v)
+    ctx.check(R, fn, "%s: file units are parsed from this file's header on this call" % q, ok_tu,
+              "the file-unit table is `%s`, not table_header_to_units(<this file>[meta_path(path)])" % (A.unparse(seen)[:80] if seen is not None else None), key=q + ":table-units")
     # returns the batch
-    rets = [s for s in A.walk_local(fn) if isinstance(s, ast.Return)]
-    ctx.check(R, fn, "%s returns the filled batch" % q, len(rets) == 1 and canon(rets[0].value) == "batch", "returns `%s`" % (A.unparse(rets[0].value) if rets else None), key=q + ":ret", nontrivial=False)
+    ctx.check(R, fn, "%s returns the filled batch" % q, len(rets) == 1 and isinstance(rets[0].value, ast.Name) and bool(stores), "returns `%s`" % (A.unparse(rets[0].value) if rets else None), key=q + ":ret", nontrivial=False)
 
 
 def check_col(ctx):
@@ -238,10 +248,11 @@ def check_refuse(ctx):
         okd = neg and A.always_raises(s.body) and A.dominates(s, first)
         why = "the dtype-mismatch branch does not raise before the mutation"
         c = [c for c in A.calls_in(s.test) if A.call_name(c) == "_custom_tbl_dtype_compare"][0]
-        args = [canon(a) for a in c.args]
-        th = A.raw_reaching_def("this_header", s)
-        oka = sorted(args) == sorted([canon(parse("existing_header['datatype']")), canon(parse("this_header['datatype']"))]) and th is not None \
-            and canon(th) == canon(parse("get_header_from_yaml(get_yaml_from_table(table))"))
+        args = [canon(A.inline_temporaries(a, s, fn)) for a in c.args]
+        mine = canon(parse("get_header_from_yaml(get_yaml_from_table(table))['datatype']"))
+        theirs = [a for a in args if a != mine]
+        # the other side is the 'datatype' entry of the header read from the existing file (a local set on the existing-table path)
+        oka = len(args) == 2 and mine in args and len(theirs) == 1 and theirs[0].endswith("['datatype']") and "get_yaml_from_table" not in theirs[0]
         ctx.check(R, s, "comparison is existing header vs this table", oka, "compares %s" % [a[:50] for a in args], key="dtype-args")
     ctx.check(R, first, "dtype mismatch is refused before the dataset is touched", okd, why, key="dtype-dom")
     # (c) missing metadata
